@@ -24,6 +24,8 @@ func init() {
 var preludeForms = []string{
 	"(defun fail-in-f (x) (error 'boom x))",
 	"(defun callit (th) (funcall th))",
+	"(defun thunk-a (th) (funcall th))",
+	"(defun thunk-b (th) (funcall th))",
 	"(defmacro mt (x) (quasiquote (list 1 (unquote x))))",
 	"(defmacro mb (x) (list (car '(list)) 1 x))",
 	"(defmacro mterr () (quasiquote (car 5)))",
@@ -87,6 +89,12 @@ var contexts = []ctx{
 	{"macro-splice-arg", "(ms 1 HOLE)"},
 	{"macro-splice-nested", "(mspl2 1 2 HOLE)"},
 	{"rethrown", "(handler-bind ([condition (lambda (c &rest d) (rethrow))]) HOLE)"},
+	// the SAME failing expression raised twice at the same depth through different callers; the first error is
+	// swallowed: the second one must carry ITS callers, not a trace kept from the first
+	{"after-swallowed/other-caller", "(let ([th (lambda () HOLE)]) (ignore-errors (thunk-a th)) (thunk-b th))"},
+	{"after-swallowed/other-caller-same-depth", "(let ([th (lambda () HOLE)]) (ignore-errors (thunk-a th)) (progn (thunk-b th)))"},
+	{"after-handled/other-caller-same-depth", "(let ([th (lambda () HOLE)]) (handler-bind ([condition (lambda (c &rest d) 0)]) (thunk-a th)) (progn (thunk-b th)))"},
+	{"after-handled/other-caller", "(let ([th (lambda () HOLE)]) (handler-bind ([condition (lambda (c &rest d) 0)]) (thunk-a th)) (thunk-b th))"},
 }
 
 // ---------------------------------------------------------------------------
@@ -373,7 +381,7 @@ func run(r *core.Run) {
 	r.Bound("error_kinds", len(leaves))
 	r.Bound("contexts", len(contexts))
 	r.Bound("layouts", 3)
-	r.Rule("every error kind (unbound symbol, package-qualified unbound symbol as a value and as an operator, symbol of an unknown package, (error ..), builtin type error, wrong arity, error inside a called function, a failing form written in a macro template, a failing form a macro built with list, set! of an unbound name, non-tail and tail recursion ending in an error) at every position of every nesting up to the depth bound of 27 contexts (argument positions, let/let* value and body, if test/branches, cond test/body, progn, lambda call, funcall, apply, map callback, labels, flet, handler-bind body, inside a handler, dotimes, thread-first, thunk, macro template argument, macro built argument, rethrown), each in 3 source layouts; plus every error kind x every context loaded from lisp through load-string / load-bytes (bare and under a rethrowing handler, elimination on and off) against the same source loaded by the host. Non-trivial = the program fails; distinct by source text")
+	r.Rule("every error kind (unbound symbol, package-qualified unbound symbol as a value and as an operator, symbol of an unknown package, (error ..), builtin type error, wrong arity, error inside a called function, a failing form written in a macro template, a failing form a macro built with list, set! of an unbound name, non-tail and tail recursion ending in an error) at every position of every nesting up to the depth bound of 31 contexts (argument positions, let/let* value and body, if test/branches, cond test/body, progn, lambda call, funcall, apply, map callback, labels, flet, handler-bind body, inside a handler, dotimes, thread-first, thunk, macro template argument, macro built argument, rethrown), each in 3 source layouts; plus every error kind x every context loaded from lisp through load-string / load-bytes (bare and under a rethrowing handler, elimination on and off) against the same source loaded by the host. Non-trivial = the program fails; distinct by source text")
 	r.Assume("frame names are compared only where both sides name the function (anonymous lambdas have no name)")
 	r.Assume("with elimination on, the trace of a program containing recursion must be an order-preserving subsequence of the reference chain whose innermost frame is present; for non-tail recursion and for programs without recursion it must be equal")
 	var seqs [][]int
